@@ -392,6 +392,7 @@ impl BytecodeBuilder {
                 | Op::SetVar { .. }
                 | Op::DeclareVar { .. }
                 | Op::DeclareVarHoisted { .. }
+                | Op::DeclareUninitialized { .. }
                 | Op::DeclareAliasVar { .. }
                 | Op::GetGlobal { .. }
                 | Op::SetGlobal { .. }
